@@ -15,3 +15,41 @@ structure FnSkel where
 deriving DecidableEq, Repr
 
 end Skel
+
+namespace Skel
+
+/-- calls the protocol model (`Model/Proto`) knows about: everything that can block, send, close or
+re-enter the protocol functions -/
+def protoCalls : List String :=
+  ["sendEvent", "sendError", "isClosed", "close", "Close", "remove", "register", "readEvents", "handleEvent",
+   "newShared", "newBackend", "AddWith", "Remove", "WatchList", "updatePath", "removePath"]
+
+/-- dropped by `quiet`: table accesses and calls of functions that neither block nor touch the protocol -/
+def SkOp.silent (o : SkOp) : Bool :=
+  o.kind == "table" || (o.kind == "call" && !(protoCalls.contains o.a))
+
+/-- emit `o` into the innermost open `if` block, or into the output -/
+def quietEmit (os : List SkOp) : List (SkOp × List SkOp) × List SkOp → List (SkOp × List SkOp) × List SkOp
+  | ([], out) => ([], out ++ os)
+  | ((b, body) :: st, out) => ((b, body ++ os) :: st, out)
+
+def quietStep (acc : List (SkOp × List SkOp) × List SkOp) (o : SkOp) : List (SkOp × List SkOp) × List SkOp :=
+  if o.kind == "ifBegin" then ((o, []) :: acc.1, acc.2)
+  else if o.kind == "ifEnd" then
+    match acc.1 with
+    | [] => quietEmit [o] acc
+    | (b, body) :: st =>
+      -- a conditional with nothing but returns inside is invisible to the protocol
+      if body.all (fun x => x.kind == "ret") then (st, acc.2) else quietEmit (b :: body ++ [o]) (st, acc.2)
+  else if o.silent then acc
+  else if o.kind == "ret" then quietEmit [{ o with a := "" }] acc     -- which value is returned is not the protocol's business
+  else quietEmit [o] acc
+
+/-- the protocol's view of a function body that runs entirely under `mu` (`handleEvent`, `register`,
+`remove`): locks, sends, closes, syscalls, calls of protocol functions and the conditionals around
+them; bookkeeping-only conditionals, table accesses and helper calls are dropped -/
+def quiet (ops : List SkOp) : List SkOp :=
+  let r := ops.foldl quietStep ([], [])
+  r.1.reverse.foldl (fun out blk => out ++ (blk.1 :: blk.2)) r.2
+
+end Skel
